@@ -163,12 +163,12 @@ def cases(c):
             if 1 <= p <= min(N // 2, 20):
                 for cplx in (0, 1):
                     out.append({'N': N, 'p': p, 'cplx': cplx, 'kind': 'noise', 'directed': True})
-    for i in range(200 if c.tier == 'quick' else 6000):
+    for i in range(1200 if c.tier == 'quick' else 9000):
         N = int(rng.integers(6, 129 if i % 3 == 0 else 48))
         out.append({'N': N, 'p': int(rng.integers(1, min(N // 2, 20) + 1)), 'cplx': int(rng.integers(0, 2)),
-                    'kind': gen.pick(rng, KINDS), 'i': i})
+                    'kind': gen.pick(rng, KINDS), 'amp10': int(gen.pick(rng, [0, 0, 0, -3, -6, 3, 5, 6])), 'i': i})
     # noiseless sums of p exponentials on an NFFT grid
-    for i in range(60 if c.tier == 'quick' else 1500):
+    for i in range(200 if c.tier == 'quick' else 2500):
         p = int(rng.integers(1, 9))
         cplx = int(rng.integers(0, 2))
         if not cplx and p % 2:
@@ -191,6 +191,8 @@ def run_case(c, d):
     x = gen.data(dd, c.rng(d, 'x'))
     if np.asarray(x).dtype.kind == 'i':
         x = x.astype(float)
+    if d.get('amp10'):
+        x = x * 10.0 ** d['amp10']
     c.set_nontrivial(p >= 2)
     feats = {'cplx': cplx}
     res = {}
